@@ -24,12 +24,14 @@ theorem patterns_are_the_source_formats :
     fmtOf patSection = PV.Generated.Ini.fmtSection ∧ kvPatterns.map fmtOf = PV.Generated.Ini.fmtKv := by
   decide
 
-/-- buffer sizes, the read loop and the comment guard are the ones the theorems assume -/
+/-- buffer sizes, the read loop and the comment guard are the ones the theorems assume; the functions that are
+modelled by hand (getters, look-ups, life cycle, string helpers) have the text the model was written from -/
 theorem source_facts :
     PV.IniSpec.maxLine = PV.Generated.Ini.maxLine ∧
     PV.Generated.Ini.lineBufSize = PV.Generated.Ini.maxLine + 1 ∧
     PV.Generated.Ini.fgetsWholeBuffer = true ∧
-    PV.Generated.Ini.commentSkip = true := by
+    PV.Generated.Ini.commentSkip = true ∧
+    PV.Generated.Ini.handModelledTextKnown = true := by
   decide
 
 /-! ## (a) robustness, for all byte strings -/
